@@ -282,3 +282,133 @@ func (e *Engine) checkDeterministic(s *State, fn *ssa.Function, c *FuncContract)
 		e.obligations[len(e.obligations)-1].Result = &SolverResult{Status: "sat", Solver: "static-call-analysis", Output: why}
 	}
 }
+
+// reads_only [tag] v: P1, P2, ...
+//
+//	The closure renders the object *v from its inputs only: it reads no field of *v except the listed field paths
+//	(and what lies below them). A decision that depends on the object's CURRENT content (what the API server stored
+//	last time) makes the rendered object depend on history - reconciling twice gives different results.
+func (e *Engine) checkReadsOnly(s *State, fn *ssa.Function, c *FuncContract) {
+	for _, spec := range strings.Split(c.Flags["reads_only"], ";;") {
+		if strings.TrimSpace(spec) == "" {
+			continue
+		}
+		tag, rest := splitTag(spec)
+		varName := rest
+		allowed := map[string]bool{}
+		if k := strings.Index(rest, ":"); k > 0 {
+			varName = strings.TrimSpace(rest[:k])
+			for _, p := range strings.Split(rest[k+1:], ",") {
+				if p = strings.TrimSpace(p); p != "" {
+					allowed[p] = true
+				}
+			}
+		}
+		// fields the closure itself has assigned on every path so far may be read back (that is not the live value)
+		mustIn := mustWrittenIn(fn, varName)
+		var bad []string
+		n := 0
+		for _, b := range fn.Blocks {
+			written := map[string]bool{}
+			for k := range mustIn[b] {
+				written[k] = true
+			}
+			for _, in := range b.Instrs {
+				if st, ok := in.(*ssa.Store); ok {
+					if p, ok := fieldPathFrom(st.Addr, varName); ok {
+						written[p] = true
+					}
+					continue
+				}
+				ld, ok := in.(*ssa.UnOp)
+				if !ok || ld.Op != token.MUL {
+					continue
+				}
+				p, ok := fieldPathFrom(ld.X, varName)
+				if !ok {
+					continue
+				}
+				n++
+				if !coveredBy(p, allowed) && !coveredBy(p, written) {
+					bad = append(bad, varName+"."+p+" at "+posString(e.fset, ld.Pos()))
+				}
+			}
+		}
+		sort.Strings(bad)
+		goal := TTrue
+		why := fmt.Sprintf("%d reads of fields of *%s, all within the allowed paths", n, varName)
+		if len(bad) > 0 {
+			goal = TFalse
+			why = "reads " + strings.Join(bad, "; ")
+		}
+		name := fmt.Sprintf("%s#frame:%s", e.rootKey, tag)
+		s.addObligation("frame", name, tag, fn.Pos(), goal, "reads of *"+varName+" only within the allowed paths: "+why)
+		if len(bad) > 0 {
+			e.obligations[len(e.obligations)-1].Result = &SolverResult{Status: "sat", Solver: "static-frame-analysis", Output: why}
+		}
+	}
+}
+
+// mustWrittenIn: for every block, the field paths of *varName assigned on every path from the entry to the block's start.
+func mustWrittenIn(fn *ssa.Function, varName string) map[*ssa.BasicBlock]map[string]bool {
+	gen := map[*ssa.BasicBlock]map[string]bool{}
+	all := map[string]bool{}
+	for _, b := range fn.Blocks {
+		g := map[string]bool{}
+		for _, in := range b.Instrs {
+			if st, ok := in.(*ssa.Store); ok {
+				if p, ok := fieldPathFrom(st.Addr, varName); ok {
+					g[p] = true
+					all[p] = true
+				}
+			}
+		}
+		gen[b] = g
+	}
+	out := map[*ssa.BasicBlock]map[string]bool{}
+	in := map[*ssa.BasicBlock]map[string]bool{}
+	for _, b := range fn.Blocks {
+		o := map[string]bool{}
+		for p := range all {
+			o[p] = true
+		}
+		out[b] = o
+		in[b] = map[string]bool{}
+	}
+	changed := true
+	for changed {
+		changed = false
+		for _, b := range fn.Blocks {
+			cur := map[string]bool{}
+			if b.Index != 0 {
+				first := true
+				for _, p := range b.Preds {
+					if first {
+						for k := range out[p] {
+							cur[k] = true
+						}
+						first = false
+					} else {
+						for k := range cur {
+							if !out[p][k] {
+								delete(cur, k)
+							}
+						}
+					}
+				}
+			}
+			in[b] = map[string]bool{}
+			for k := range cur {
+				in[b][k] = true
+			}
+			for k := range gen[b] {
+				cur[k] = true
+			}
+			if len(cur) != len(out[b]) {
+				out[b] = cur
+				changed = true
+			}
+		}
+	}
+	return in
+}
